@@ -20,7 +20,7 @@ Inductive MStep : Sim -> Sim -> Prop :=
 | M_admit s r : r_disp r = None -> MStep s (admit_request env s r)
 | M_price s sid prices : MStep s (update_station_prices env s sid prices)
 | M_driver rt s v s' : driver_update env rt s v = Ok s' -> MStep s s'
-| M_ghost s s' : same_entities s s' -> MStep s s'
+| M_ghost s s' : same_entities s s' -> log s' = log s -> MStep s s'
 | M_tick s : MStep s (sim_tick s).
 Inductive MStar : Sim -> Sim -> Prop :=
 | MS_refl s : MStar s s
@@ -253,7 +253,7 @@ Qed.
 Lemma apply_phase2_macro s i vid st nx : vstate_of s vid = Some st -> MStar s (apply_phase2 env s (i, ((vid, st), (vid, nx)))).
 Proof.
   intro Hst. unfold apply_phase2. cbn [fst snd]. destruct (transition env s (vid, st) (vid, nx)) eqn:E; try constructor.
-  eapply MS_step; [eapply M_transition; eauto|]. apply MStar_one, M_ghost. unfold same_entities; cbn; repeat split.
+  eapply MS_step; [eapply M_transition; eauto|]. apply MStar_one, M_ghost; [unfold same_entities; cbn; repeat split|reflexivity].
 Qed.
 Lemma phase2_macro (l : list (Instr * (VS * VS))) : NoDup (map (fun e => instr_vid (fst e)) l) -> forall s, vkeys s ->
   (forall e, In e l -> fst (fst (snd e)) = instr_vid (fst e) /\ fst (snd (snd e)) = instr_vid (fst e) /\
@@ -303,7 +303,7 @@ Proof.
       destruct (driver_update env range_target acc v) eqn:E; try constructor. eapply MStar_trans; [exact Hacc|]. apply MStar_one. eapply M_driver; eauto. }
     apply G. constructor.
   - apply MStar_one, M_tick.
-  - apply MStar_one, M_ghost. unfold same_entities; cbn; repeat split.
+  - apply MStar_one, M_ghost; [unfold same_entities; cbn; repeat split|reflexivity].
 Qed.
 
 (* ---------- every macro step keeps the vehicle map keyed by id; invariants lift from macro steps to histories ---------- *)
